@@ -2527,10 +2527,14 @@ func (p *lfPkg) splitRMW(v *types.Var, g *types.Var, name string) []lfSplit {
 			getters[a.u] = true
 		}
 		if a.write {
-			// v = <expr mentioning parameter k>
-			if as, ok := p.parent[a.id].(*ast.AssignStmt); ok && len(as.Lhs) == len(as.Rhs) {
+			// v = <expr mentioning parameter k>      (x.v = … for a field)
+			var lhs ast.Expr = a.id
+			if sel, ok := p.parent[a.id].(*ast.SelectorExpr); ok && sel.Sel == a.id {
+				lhs = sel
+			}
+			if as, ok := p.parent[lhs].(*ast.AssignStmt); ok && len(as.Lhs) == len(as.Rhs) {
 				for i, l := range as.Lhs {
-					if l == ast.Expr(a.id) {
+					if l == lhs {
 						for k, prm := range a.u.params {
 							if prm != nil && k > 0 && p.mentions(as.Rhs[i], prm) {
 								setters[a.u] = k
@@ -2600,9 +2604,34 @@ func (p *lfPkg) splitRMW(v *types.Var, g *types.Var, name string) []lfSplit {
 			switch x := n.(type) {
 			case *ast.AssignStmt:
 				for i, l := range x.Lhs {
-					if id, _ := lfRootIdent(l); id != nil && p.info.Uses[id] == types.Object(v) && i < len(x.Rhs) {
+					isV := false
+					switch lx := ast.Unparen(l).(type) {
+					case *ast.Ident:
+						isV = p.info.Uses[lx] == types.Object(v)
+					case *ast.SelectorExpr:
+						isV = p.info.Uses[lx.Sel] == types.Object(v)
+					}
+					if !isV {
+						if id, _ := lfRootIdent(l); id != nil && !v.IsField() && p.info.Uses[id] == types.Object(v) {
+							isV = true // an element / field of the package variable
+						}
+					}
+					if isV && i < len(x.Rhs) {
 						wr := u.heldAt(x.Pos(), g)
+						// a second critical section that looks at v again before storing (re-check
+						// after re-locking) decides on the current value: not a blind write-back
+						rechecked := false
+						if wr != nil {
+							for _, a := range acc {
+								if a.u == u && !a.write && a.id.Pos() >= wr.from && a.id.Pos() < x.Pos() {
+									rechecked = true
+								}
+							}
+						}
 						for _, r := range reads {
+							if rechecked && r.r != wr {
+								continue
+							}
 							if r.pos < x.Pos() && p.mentions(x.Rhs[i], r.local) && (r.r == nil || r.r != wr) {
 								out = append(out, lfSplit{u.name, name, p.where(x.Pos()), r.how + ", written back in another critical section"})
 							}
@@ -2823,7 +2852,7 @@ func genLockFacts(e *Env) (string, error) {
 				}
 				t := &lfTarget{spec: spec, v: v, guard: g, name: name}
 				guardRows = append(guardRows, [3]string{name, lfGuardName(p, g), spec.kind})
-				if fv, ok := v.(*types.Var); ok && spec.kind == "mutex" && !fv.IsField() {
+				if fv, ok := v.(*types.Var); ok && spec.kind == "mutex" {
 					splits = append(splits, p.splitRMW(fv, g, name)...)
 				}
 				ss := p.sitesOf(t, fr, conf, confR, ob, ao)
